@@ -4,7 +4,7 @@ package textwire
 
 import "github.com/textwire/textwire/v2/config"
 
-const c16Names = 7
+const c16Names = 8
 
 type c16Result struct {
 	out, err, body string
@@ -20,6 +20,8 @@ func c16Tree() *Template {
 	vfsWriteFile("templates/ok.tw", "@use(\"~main\")@insert(\"r\")@each(v in vs)@component(\"~card\", {t: v})@end@end")
 	vfsWriteFile("templates/bad.tw", "head{{ 1 / d > 0 ? 'p' : 'n' }}")
 	vfsWriteFile("templates/err.tw", "Custom oops")
+	// fails in the second pass of either loop for some divisors, after the first pass has produced text
+	vfsWriteFile("templates/rows.tw", "@each(v in vs)[{{ v }}{{ d == loop.index ? nope : \"p\" }}]@end@for(i = 0; i < 3; i++)({{ d == i + 10 ? nope : \"q\" }})@end")
 	vfsWriteFile("plain.txt", "file {{ d > 0 ? 'p' : 'n' }}")
 	vfsWriteFile("templates/prof.tw", "<{{ u.name }}>")
 	vfsWriteFile("templates/setter.tw", "{{ h = \"H\" }}[{{ h }}]")
@@ -31,7 +33,7 @@ func c16Tree() *Template {
 
 // c16Op runs one of the rendering operations; name and data are chosen by the caller.
 func c16Op(tpl *Template, op, name int, d int64, s string) c16Result {
-	names := []string{"ok", "bad", "missing", "prof", "prof", "setter", "reader"}
+	names := []string{"ok", "bad", "missing", "prof", "prof", "setter", "reader", "rows"}
 	data := map[string]any{"vs": []any{s, "z"}, "d": d}
 	switch name {
 	case 3:
@@ -90,7 +92,7 @@ func c16Op(tpl *Template, op, name int, d int64, s string) c16Result {
 func c16Snapshot(tpl *Template) string {
 	out := userConfig.TemplateDir + "|" + userConfig.TemplateExt + "|" + userConfig.ErrorPagePath + "|" + b01(userConfig.DebugMode) + "|"
 	out += string([]byte{byte('0' + len(customFunc.Str) + len(customFunc.Arr) + len(customFunc.Int) + len(customFunc.Float) + len(customFunc.Bool))})
-	for _, n := range []string{"ok", "bad", "err", "prof", "setter", "reader"} {
+	for _, n := range []string{"ok", "bad", "err", "prof", "setter", "reader", "rows"} {
 		if p, ok := tpl.programs[n]; ok {
 			out += "|" + n + "=" + p.String()
 		}
